@@ -18,7 +18,7 @@ import (
 )
 
 var osFuncs = map[string]bool{"Create": true, "Open": true, "OpenFile": true, "CreateTemp": true, "ReadFile": true, "WriteFile": true, "ReadDir": true,
-	"Mkdir": true, "MkdirAll": true, "Remove": true, "RemoveAll": true, "Rename": true, "Truncate": true, "Chmod": true, "Symlink": true, "Link": true, "File": true}
+	"Mkdir": true, "MkdirAll": true, "Remove": true, "RemoveAll": true, "Rename": true, "Truncate": true, "Chmod": true, "Symlink": true, "Link": true, "File": true, "Getpid": true}
 var ioutilFuncs = map[string]bool{"ReadFile": true, "WriteFile": true}
 
 func main() {
